@@ -670,8 +670,8 @@ fn judge(
         _ => None,
     };
     if on != op {
-        let other_may_lose = matches!(collision, Some(Loser::Either)) || collision == Some(Loser::Role(o));
-        let legal = on == Slot::Free && other_may_lose;
+        // which side goes in a collision is the collision clause's business
+        let legal = on == Slot::Free && collision.is_some();
         if !legal {
             fail(
                 format!("C07/path/other-role-{}-to-{}-by-{}", op.name(), on.name(), sym.name()),
@@ -1259,6 +1259,59 @@ fn random_histories(rep: &mut Report, params: &Params, count: u64, t: &mut Tally
     }
 }
 
+/// Not judged (outside the statement, which speaks about connections, while the
+/// arbiter addresses roles): the loser of a collision is told through its close
+/// channel and its slot is cleared at once, but its task runs `apply_disconnect`
+/// (close_tx = None; Input::Disconnected for the *role*) only later.  If a new
+/// connection of the same role is accepted in between (accept_connection only
+/// looks at close_tx, which ConnArbiter::process has already taken), the late
+/// Disconnected clears the successor's slot.  Replayed here deterministically at
+/// the arbiter level and counted; the interleaving itself is not forced on a
+/// real driver.
+fn probe_late_apply_disconnect(rep: &mut Report) {
+    let cfg = Cfg::new(0x0200_0001, 0x0100_0003, 90, 30); // local id higher: the passive connection loses
+    let mut drv = Drv::new(&cfg, Mode::Arbiter);
+    let mut trace: Vec<String> = Vec::new();
+    let mut step = |drv: &mut Drv, r: usize, sym: Sym, note: &str, trace: &mut Vec<String>| {
+        let mut rendered = Vec::new();
+        let seen = drv.feed(&cfg, r, sym, 0, Some(&mut rendered));
+        trace.push(format!(
+            "{}{}:{} -> [{}] states A={} P={}",
+            note,
+            role_name(r),
+            sym.name(),
+            rendered.join(", "),
+            slot_of(drv.state(ACTIVE)).name(),
+            slot_of(drv.state(PASSIVE)).name()
+        ));
+        seen
+    };
+    step(&mut drv, PASSIVE, Conn, "", &mut trace);
+    step(&mut drv, PASSIVE, OpenOk, "", &mut trace);
+    step(&mut drv, ACTIVE, Conn, "", &mut trace);
+    let seen = step(&mut drv, ACTIVE, OpenOk, "", &mut trace);
+    if !seen.cease_on_channel[PASSIVE] {
+        rep.count("unjudged:race-probe:not-applicable");
+        return;
+    }
+    // a new passive connection is accepted before the loser's task has run apply_disconnect
+    let seen = step(&mut drv, PASSIVE, Conn, "(new connection) ", &mut trace);
+    let accepted = !seen.skipped_already_connected && slot_of(drv.state(PASSIVE)) == Slot::OpenSent;
+    // the old loser's apply_disconnect
+    drv.drop_channel(PASSIVE);
+    step(&mut drv, PASSIVE, Disc, "(old loser's apply_disconnect) ", &mut trace);
+    let killed = accepted && slot_of(drv.state(PASSIVE)) == Slot::Free;
+    rep.count(if killed {
+        "unjudged:race-probe:late-apply-disconnect-clears-successor-slot"
+    } else {
+        "unjudged:race-probe:successor-unaffected"
+    });
+    rep.extra(
+        "race_probe_late_apply_disconnect",
+        Json::obj(vec![("successor_slot_cleared", Json::Bool(killed)), ("trace", Json::strs(trace))]),
+    );
+}
+
 #[test]
 fn run() {
     let params = Params::from_args_env();
@@ -1274,6 +1327,9 @@ fn run() {
         if part == "all" || part == "random" {
             let n = params.get_u64("random", params.n(2_500, 60_000));
             random_histories(&mut rep, &params, n, &mut t);
+        }
+        if (part == "all" || part == "random") && shard_index(&params) == 0 {
+            probe_late_apply_disconnect(&mut rep);
         }
     });
     t.flush(&mut rep);
